@@ -27,6 +27,8 @@ def defects_of(label):
         return ["descendant-range-zero-width"]
     if rest == "fallback-lost":
         return ["first-child-for-byte-fallback"]
+    if rest == "dead-end-descent":
+        return ["cursor-first-child-for-byte-dead-end"]
     if rest == "hidden-missing-printed":
         return ["sexp-hidden-missing"]
     if rest == "error-parent-has-no-field-map":
